@@ -1,3 +1,4 @@
+import copy
 from typing import Any, cast
 
 from prosemirror.model import Node, Schema
@@ -33,7 +34,7 @@ class DocAttrStep(Step):
         json_data = {
             "stepType": "docAttr",
             "attr": self.attr,
-            "value": self.value,
+            "value": copy.deepcopy(self.value),
         }
 
         return json_data
